@@ -668,3 +668,7 @@ for _ka, _kb, _nm in ((2, 1, 'seqprofile'), (2, 2, 'profileprofile')):
       mode='wrap', unwind=8, timeout=900, funcs=['aln_%s_meetup' % _nm, 'make_profile_n', 'update_n', 'set_gap_penalties_n'],
       srcs=['lib/src/aln_mem.c'], native_srcs=['lib/src/tldevel.c', 'lib/src/aln_mem.c'], trusted=[TRUST_MSG, 'fabsf: CBMC library model'],
       assumptions=[A_FLOAT, A_WRAP, A_NOFAIL, A_MEET, 'profiles of groups of identical copies built by the real profile code'])
+Q(id='C07.aln_continue', props=['C07'], cls='P', harness='c07_continue.c', entry='h_c07_continue',
+  mode='dfcc', replace=['aln_runner', 'aln_runner_serial'], unwind=14, timeout=900, replayable=False,
+  funcs=['aln_continue'], trusted=[TRUST_MSG, 'aln_runner / aln_runner_serial replaced at the call sites by the contract of contracts/aln_controller.contracts.h (arguments compared with the prescribed split)'],
+  assumptions=[A_NOFAIL, 'block coordinates symbolic with starta < mid < enda < 10 (size of the harness path buffer) and startb <= meet <= endb < 1000; boundary states symbolic over the full float domain'])
